@@ -61,6 +61,10 @@ class Cache:
     #     objects indicating the results. Their is_finished fields must be
     #     True. For the subbuilds that we haven't finished, the entries are
     #     None.
+    # set<str> _rebuilt_files - The non-norm-cased filenames of the files we
+    #     have started building in this build, as in start_building_file. This
+    #     does not include files for which we reused a cached result. This is
+    #     guarded by _files_lock.
     # Lock _subbuilds_lock - The lock guarding access to _subbuilds. If the
     #     cache is immutable, this is contextlib.nullcontext() instead.
 
@@ -102,6 +106,7 @@ class Cache:
             self._subbuilds_lock = null_context
             self._created_dirs_lock = null_context
 
+        self._rebuilt_files = set()
         self._norm_cased_files = {}
         for filename, operation in files.items():
             self._norm_cased_files[os.path.normcase(filename)] = operation
@@ -188,6 +193,18 @@ class Cache:
                 norm_cased_filename, filename)
             self._files[filename] = None
             self._norm_cased_files[norm_cased_filename] = None
+            self._rebuilt_files.add(filename)
+
+    def rebuilt_files(self):
+        """Return the files we have started building in this build.
+
+        This is a list of the non-norm-cased filenames of all of the
+        files passed to ``start_building_file``, whether or not we
+        finished building them. It does not include files for which we
+        reused a previously cached result.
+        """
+        with self._files_lock:
+            return list(self._rebuilt_files)
 
     def finish_building_file(self, operation):
         """Record the result of building the specified file.
